@@ -6,6 +6,7 @@ pub mod c03;
 pub mod c04;
 pub mod c11;
 pub mod c12;
+pub mod c13;
 pub mod c16;
 pub mod c17;
 pub mod c18;
@@ -19,6 +20,7 @@ pub fn run(id: &str, tier: Tier) -> Option<Report> {
         "C04" => c04::run(tier),
         "C11" => c11::run(tier),
         "C12" => c12::run(tier),
+        "C13" => c13::run(tier),
         "C16" => c16::run(tier),
         "C17" => c17::run(tier),
         "C18" => c18::run(tier),
